@@ -266,3 +266,7 @@ Section Cub.
     (- 2 ^ 31 <= idx_cub gamma o v <= 2 ^ 31 - 1)%Z.
   Proof. apply (interp_int32 _ _ _ interp_cub _ o Hg). Qed.
 End Cub.
+
+Theorem value_cub_incr (gamma o a : R) (i j : Z) :
+  1 < gamma -> -1 < a -> (i < j)%Z -> value_cub gamma o a i < value_cub gamma o a j.
+Proof. apply (interp_value_incr _ _ _ interp_cub). Qed.
